@@ -507,7 +507,7 @@ theorem leaf_functions (scope : ScopeId) (i : Item) (st : St) (hw : WF st) (_ : 
   | function n ps r tag =>
     simpa [passLeaf, QFlat] using good1_of_good (declareFunction_good hw lex scope n ps r tag false)
   | impl ty ch =>
-    simp only [passLeaf]
+    simp only [passLeaf, implScopeC_fixed]
     cases hs : implScope ty st with
     | panic s => exact absurd hs (implScope_noPanic hw ty s)
     | err e => simp [Good1]
@@ -526,7 +526,7 @@ theorem leaf_constants (scope : ScopeId) (i : Item) (st : St) (hw : WF st) (hq :
   | constant n ty tag =>
     simpa [passLeaf, QTrue] using good1_of_good (declareConstant_good hw scope n ty tag)
   | impl ty ch =>
-    simp only [passLeaf]
+    simp only [passLeaf, implScopeC_fixed]
     cases hs : implScope ty st with
     | panic s => exact absurd hs (implScope_noPanic hw ty s)
     | err e => simp [Good1]
